@@ -47,6 +47,12 @@ def Flag.long : Flag → Bytes
   | .quiet => [45, 45, 113, 117, 105, 101, 116]
   | .style => [45, 45, 115, 116, 121, 108, 101]
 
+def Flag.byte : Flag → UInt8
+  | .julian => 106 | .json => 74 | .ordinal => 111 | .quiet => 113 | .style => 115
+
+def clusterArg (fs : List Flag) : Bytes := 45 :: fs.map Flag.byte
+
+
 /-- one element of a command line -/
 inductive Tok where
   /-- a positional argument that does not look like an option -/
@@ -63,6 +69,8 @@ inductive Tok where
   | reformAttached (eq : Bool) (v : Bytes) (s : String) (cal : Calendar)
   /-- `--reformation=VALUE` as one argument -/
   | reformLongEq (v : Bytes) (s : String) (cal : Calendar)
+  /-- several switches in one argument: `-jq`, `-oqs`, … -/
+  | cluster (fs : List Flag)
 
 def digitByte (k : Fin 10) : UInt8 := (48 + k.val).toUInt8
 
@@ -77,6 +85,7 @@ def Tok.encode : Tok → List Bytes
   | .reformAttached eq v _ _ => [45 :: 114 :: ((if eq then [61] else []) ++ v)]
   | .reformLongEq v _ _ =>
     [45 :: 45 :: 114 :: 101 :: 102 :: 111 :: 114 :: 109 :: 97 :: 116 :: 105 :: 111 :: 110 :: 61 :: v]
+  | .cluster fs => [clusterArg fs]
 
 /-- the side conditions: how the bytes decode, and what makes a positional argument one -/
 def Tok.Ok : Tok → Prop
@@ -89,6 +98,7 @@ def Tok.Ok : Tok → Prop
   | .reformAttached eq v s cal =>
     (eq = false → v ≠ [] ∧ v.head? ≠ some 61) ∧ bytesToString? v = some s ∧ parseReformation s = some cal
   | .reformLongEq v s cal => bytesToString? v = some s ∧ parseReformation s = some cal
+  | .cluster fs => fs ≠ []
 
 def Tok.apply (o : Options) : Tok → Options
   | .short f => f.apply o
@@ -97,7 +107,13 @@ def Tok.apply (o : Options) : Tok → Options
   | .reformLong _ _ cal => { o with calendar := cal }
   | .reformAttached _ _ _ cal => { o with calendar := cal }
   | .reformLongEq _ _ cal => { o with calendar := cal }
+  | .cluster fs => fs.foldl Flag.apply o
   | _ => o
+
+/-- the number of `from_parser` iterations a token takes -/
+def Tok.cost : Tok → Nat
+  | .cluster fs => fs.length
+  | _ => 1
 
 /-- the positional argument a token contributes -/
 def Tok.arg : Tok → Option String
@@ -292,11 +308,76 @@ theorem step_reformLongEq (v : Bytes) (s : String) (cal : Calendar)
       name_style, name_reformation]
   simp
 
-/-- one token, one step of `from_parser` -/
+theorem cluster_getD (done rest : List Flag) (r : Flag) :
+    (clusterArg (done ++ r :: rest)).getD (1 + done.length) 0 = r.byte := by
+  simp only [clusterArg, List.map_append, List.map_cons]
+  have : 1 + done.length = (done.map Flag.byte).length + 1 := by simp; omega
+  rw [this, List.getD_cons_succ]
+  simp [List.getD]
+
+theorem flag_byte_facts (f : Flag) : f.byte < 128 ∧ (f.byte == eqSign) = false ∧ f.byte ≠ 45 := by
+  cases f <;> decide
+
+/-- inside a cluster: one flag per step -/
+theorem cluster_next (done rest : List Flag) (r : Flag) (src : List Bytes) :
+    (⟨.shorts (clusterArg (done ++ r :: rest)) (1 + done.length), src⟩ : Parser).next
+      = .arg (.short (Char.ofNat r.byte.toNat))
+          ⟨.shorts (clusterArg (done ++ r :: rest)) (1 + done.length + 1), src⟩ := by
+  obtain ⟨h1, h2, _⟩ := flag_byte_facts r
+  have hlen : ¬ 1 + done.length ≥ (clusterArg (done ++ r :: rest)).length := by
+    simp [clusterArg]; omega
+  simp only [Parser.next, hlen, if_false, cluster_getD, h2, Bool.false_and, Bool.false_eq_true, h1,
+    if_true]
+
+theorem cluster_run : ∀ (rest done : List Flag) (fuel : Nat) (src : List Bytes) (opts : Options)
+    (args : List String),
+    fromParser (fuel + rest.length) ⟨.shorts (clusterArg (done ++ rest)) (1 + done.length), src⟩ opts args
+      = fromParser fuel ⟨.shorts (clusterArg (done ++ rest)) (1 + (done ++ rest).length), src⟩
+          (rest.foldl Flag.apply opts) args := by
+  intro rest
+  induction rest with
+  | nil => intro done fuel src opts args; simp
+  | cons r rs ih =>
+    intro done fuel src opts args
+    have hl : fuel + (r :: rs).length = (fuel + rs.length) + 1 := by simp; omega
+    rw [hl, fromParser, cluster_next]
+    have hih := ih (done ++ [r]) fuel src (r.apply opts) args
+    have e1 : (done ++ [r]) ++ rs = done ++ r :: rs := by simp
+    have e2 : 1 + (done ++ [r]).length = 1 + done.length + 1 := by simp; omega
+    rw [e1, e2] at hih
+    simp only [List.foldl_cons]
+    rw [← hih]
+    cases r <;> simp [Flag.byte, Flag.apply] <;> rfl
+
+/-- a cluster of switches in one argument, e.g. `-jq` or `-oqs` -/
+theorem step_cluster (fs : List Flag) (hne : fs ≠ []) (fuel : Nat) (p : Parser) (opts : Options)
+    (args : List String) (tail : List Bytes) (hq : Quiescent p) (hs : p.source = clusterArg fs :: tail) :
+    fromParser (fuel + fs.length) p opts args
+      = fromParser fuel ⟨.shorts (clusterArg fs) (1 + fs.length), tail⟩ (fs.foldl Flag.apply opts) args := by
+  obtain ⟨f, fs', rfl⟩ : ∃ f fs', fs = f :: fs' := by
+    cases fs with
+    | nil => exact absurd rfl hne
+    | cons f fs' => exact ⟨f, fs', rfl⟩
+  obtain ⟨h1, h2, h3⟩ := flag_byte_facts f
+  have hfresh : Parser.nextFresh ⟨.none, clusterArg (f :: fs') :: tail⟩
+      = .arg (.short (Char.ofNat f.byte.toNat)) ⟨.shorts (clusterArg (f :: fs')) 2, tail⟩ := by
+    have hb : (f.byte == 45) = false := by simp [h3]
+    simp [Parser.nextFresh, dash, clusterArg, hb, h1]
+  have hl : fuel + (f :: fs').length = (fuel + fs'.length) + 1 := by simp; omega
+  rw [hl, fromParser, hq.next, hs, hfresh]
+  have hrun := cluster_run fs' [f] fuel tail (f.apply opts) args
+  simp only [List.singleton_append, List.length_singleton] at hrun
+  simp only [List.foldl_cons]
+  have e : 1 + (f :: fs').length = 1 + (f :: fs').length := rfl
+  rw [← hrun]
+  cases f <;> simp [Flag.byte, Flag.apply] <;> rfl
+
+/-- one token: `cost` steps of `from_parser` -/
 theorem step (t : Tok) (ht : t.Ok) (fuel : Nat) (p : Parser) (opts : Options) (args : List String)
     (tail : List Bytes) (hq : Quiescent p) (hs : p.source = t.encode ++ tail) :
     ∃ p', Quiescent p' ∧ p'.source = tail
-      ∧ fromParser (fuel + 1) p opts args = fromParser fuel p' (t.apply opts) (t.arg.toList ++ args) := by
+      ∧ fromParser (fuel + t.cost) p opts args
+          = fromParser fuel p' (t.apply opts) (t.arg.toList ++ args) := by
   cases t with
   | plain b s =>
     exact ⟨_, quiescent_none tail, rfl, step_plain b s ht.1 ht.2 fuel p opts args tail hq hs⟩
@@ -316,13 +397,16 @@ theorem step (t : Tok) (ht : t.Ok) (fuel : Nat) (p : Parser) (opts : Options) (a
       step_reformAttached eq v s cal ht.1 ht.2.1 ht.2.2 fuel p opts args tail hq hs⟩
   | reformLongEq v s cal =>
     exact ⟨_, quiescent_none tail, rfl, step_reformLongEq v s cal ht.1 ht.2 fuel p opts args tail hq hs⟩
+  | cluster fs =>
+    refine ⟨_, quiescent_shorts (clusterArg fs) (1 + fs.length) tail (by simp [clusterArg]; omega), rfl, ?_⟩
+    exact step_cluster fs ht fuel p opts args tail hq hs
 
 /-- a run of tokens, then whatever follows -/
 theorem fromParser_prefix (toks : List Tok) (hok : ∀ t ∈ toks, t.Ok) :
     ∀ (fuel : Nat) (p : Parser) (opts : Options) (args : List String) (tail : List Bytes),
       Quiescent p → p.source = toks.flatMap Tok.encode ++ tail →
       ∃ p', Quiescent p' ∧ p'.source = tail
-        ∧ fromParser (fuel + toks.length) p opts args
+        ∧ fromParser (fuel + (toks.map Tok.cost).sum) p opts args
             = fromParser fuel p' (toks.foldl Tok.apply opts)
                 ((toks.filterMap Tok.arg).reverse ++ args) := by
   induction toks with
@@ -333,11 +417,12 @@ theorem fromParser_prefix (toks : List Tok) (hok : ∀ t ∈ toks, t.Ok) :
     intro fuel p opts args tail hq hs
     have hs' : p.source = t.encode ++ (ts.flatMap Tok.encode ++ tail) := by
       simpa [List.flatMap_cons, List.append_assoc] using hs
-    obtain ⟨p1, hq1, hs1, h1⟩ := step t (hok t (List.mem_cons_self ..)) (fuel + ts.length) p opts args _ hq hs'
+    obtain ⟨p1, hq1, hs1, h1⟩ := step t (hok t (List.mem_cons_self ..)) (fuel + (ts.map Tok.cost).sum) p opts args _ hq hs'
     obtain ⟨p2, hq2, hs2, h2⟩ := ih (fun t' ht' => hok t' (List.mem_cons_of_mem _ ht')) fuel p1
       (t.apply opts) (t.arg.toList ++ args) tail hq1 hs1
     refine ⟨p2, hq2, hs2, ?_⟩
-    have hl : fuel + (t :: ts).length = fuel + ts.length + 1 := by simp; omega
+    have hl : fuel + ((t :: ts).map Tok.cost).sum = fuel + (ts.map Tok.cost).sum + t.cost := by
+      simp only [List.map_cons, List.sum_cons]; omega
     rw [hl, h1, h2]
     simp only [List.foldl_cons]
     congr 1
@@ -345,14 +430,21 @@ theorem fromParser_prefix (toks : List Tok) (hok : ∀ t ∈ toks, t.Ok) :
     | none => simp [List.filterMap_cons, ha]
     | some s => simp [List.filterMap_cons, ha]
 
-theorem encode_length (t : Tok) : 1 ≤ t.encode.length := by cases t <;> simp [Tok.encode]
+theorem cost_le (t : Tok) : t.cost ≤ (t.encode.map fun a => a.length + 2).sum := by
+  cases t <;> simp [Tok.cost, Tok.encode, clusterArg] <;> omega
 
-theorem toks_le_argv (toks : List Tok) : toks.length ≤ (toks.flatMap Tok.encode).length := by
+theorem fuelFor_append (xs ys : List Bytes) :
+    fuelFor (xs ++ ys) = (xs.map fun a => a.length + 2).sum + fuelFor ys := by
+  simp only [fuelFor, List.map_append, List.sum_append]; omega
+
+theorem cost_sum_le (toks : List Tok) :
+    (toks.map Tok.cost).sum ≤ ((toks.flatMap Tok.encode).map fun a => a.length + 2).sum := by
   induction toks with
   | nil => simp
   | cons t ts ih =>
-    have := encode_length t
-    simp only [List.flatMap_cons, List.length_append, List.length_cons]; omega
+    have := cost_le t
+    simp only [List.map_cons, List.sum_cons, List.flatMap_cons, List.map_append, List.sum_append]
+    omega
 
 theorem fuelFor_ge (argv : List Bytes) : 2 * argv.length + 2 ≤ fuelFor argv := by
   simp only [fuelFor]
@@ -367,10 +459,12 @@ last calendar selection wins, wherever it stands) and the positional arguments i
 theorem parse_spec (toks : List Tok) (hok : ∀ t ∈ toks, t.Ok) :
     parseCommand (toks.flatMap Tok.encode)
       = .run (toks.foldl Tok.apply {}) (toks.filterMap Tok.arg) := by
-  have hfuel := fuelFor_ge (toks.flatMap Tok.encode)
-  have hle := toks_le_argv toks
-  obtain ⟨f, hf⟩ : ∃ f, fuelFor (toks.flatMap Tok.encode) = (f + 1) + toks.length :=
-    ⟨fuelFor (toks.flatMap Tok.encode) - toks.length - 1, by omega⟩
+  have hle := cost_sum_le toks
+  have hfa := fuelFor_append (toks.flatMap Tok.encode) []
+  have h0 : fuelFor [] = 2 := rfl
+  simp only [List.append_nil] at hfa
+  obtain ⟨f, hf⟩ : ∃ f, fuelFor (toks.flatMap Tok.encode) = (f + 1) + (toks.map Tok.cost).sum :=
+    ⟨fuelFor (toks.flatMap Tok.encode) - (toks.map Tok.cost).sum - 1, by omega⟩
   obtain ⟨p', hq', hs', h⟩ := fromParser_prefix toks hok (f + 1) ⟨.none, toks.flatMap Tok.encode⟩ {} []
     [] (quiescent_none _) (by simp)
   simp only [parseCommand]
@@ -388,15 +482,16 @@ theorem early_exit (toks : List Tok) (hok : ∀ t ∈ toks, t.Ok) (post : List B
     ∧ parseCommand (toks.flatMap Tok.encode ++ [45, 45, 118, 101, 114, 115, 105, 111, 110] :: post) = .version
     ∧ parseCommand (toks.flatMap Tok.encode ++ [45, 45, 99, 111, 117, 110, 116, 114, 105, 101, 115] :: post)
         = .countries := by
-  have hle := toks_le_argv toks
+  have hle := cost_sum_le toks
   have key : ∀ (x : Bytes) (c : Command),
       (∀ f p' o a, Quiescent p' → p'.source = x :: post → fromParser (f + 1) p' o a = c) →
       parseCommand (toks.flatMap Tok.encode ++ x :: post) = c := by
     intro x c hx
-    have hfuel := fuelFor_ge (toks.flatMap Tok.encode ++ x :: post)
-    simp only [List.length_append, List.length_cons] at hfuel
-    obtain ⟨f, hf⟩ : ∃ f, fuelFor (toks.flatMap Tok.encode ++ x :: post) = (f + 1) + toks.length :=
-      ⟨fuelFor (toks.flatMap Tok.encode ++ x :: post) - toks.length - 1, by omega⟩
+    have hfa := fuelFor_append (toks.flatMap Tok.encode) (x :: post)
+    have hfuel := fuelFor_ge (x :: post)
+    simp only [List.length_cons] at hfuel
+    obtain ⟨f, hf⟩ : ∃ f, fuelFor (toks.flatMap Tok.encode ++ x :: post) = (f + 1) + (toks.map Tok.cost).sum :=
+      ⟨fuelFor (toks.flatMap Tok.encode ++ x :: post) - (toks.map Tok.cost).sum - 1, by omega⟩
     obtain ⟨p', hq', hs', h⟩ := fromParser_prefix toks hok (f + 1)
       ⟨.none, toks.flatMap Tok.encode ++ x :: post⟩ {} [] (x :: post) (quiescent_none _) rfl
     simp only [parseCommand]
@@ -438,12 +533,14 @@ theorem parse_spec_dashdash (toks : List Tok) (hok : ∀ t ∈ toks, t.Ok)
     (vals : List (Bytes × String)) (hv : ∀ v ∈ vals, bytesToString? v.1 = some v.2) :
     parseCommand (toks.flatMap Tok.encode ++ [45, 45] :: vals.map (·.1))
       = .run (toks.foldl Tok.apply {}) (toks.filterMap Tok.arg ++ vals.map (·.2)) := by
-  have hle := toks_le_argv toks
-  have hfuel := fuelFor_ge (toks.flatMap Tok.encode ++ [45, 45] :: vals.map (·.1))
-  simp only [List.length_append, List.length_cons, List.length_map] at hfuel
+  have hle := cost_sum_le toks
+  have hfa := fuelFor_append (toks.flatMap Tok.encode) ([45, 45] :: vals.map (·.1))
+  have hfuel := fuelFor_ge ([45, 45] :: vals.map (·.1))
+  simp only [List.length_cons, List.length_map] at hfuel
   obtain ⟨f, hf⟩ : ∃ f, fuelFor (toks.flatMap Tok.encode ++ [45, 45] :: vals.map (·.1))
-      = ((f + vals.length + 1) + 1) + toks.length :=
-    ⟨fuelFor (toks.flatMap Tok.encode ++ [45, 45] :: vals.map (·.1)) - toks.length - vals.length - 2, by omega⟩
+      = ((f + vals.length + 1) + 1) + (toks.map Tok.cost).sum :=
+    ⟨fuelFor (toks.flatMap Tok.encode ++ [45, 45] :: vals.map (·.1)) - (toks.map Tok.cost).sum
+        - vals.length - 2, by omega⟩
   obtain ⟨p', hq', hs', h⟩ := fromParser_prefix toks hok ((f + vals.length + 1) + 1)
     ⟨.none, toks.flatMap Tok.encode ++ [45, 45] :: vals.map (·.1)⟩ {} [] ([45, 45] :: vals.map (·.1))
     (quiescent_none _) rfl
